@@ -667,5 +667,12 @@ func genSeq(prop string, seed uint64, run int, p seqProfile, av avoid) *Case {
 			g.cols = append(g.cols[:i:i], g.cols[i+1:]...)
 		}
 	}
+	// fault: a quarter of the failing transactions panic instead of returning an error (own stream)
+	pr := NewRng(seed, uint64(run), 91)
+	for i := range cs.Steps {
+		if t := cs.Steps[i].Txn; t != nil && t.Abort && pr.Chance(0.25) {
+			t.Panic = true
+		}
+	}
 	return cs
 }
